@@ -16,166 +16,168 @@ pub proof fn lemma_clz_mask(a: u64, h: int)
         // leading ones: the same test on the complement pattern
         ((a & (clz_mask(h) as u64)) == (0x1_0000_0000 - p2(32 - h)) as u64) <==> clz_is(0xFFFF_FFFF - a as int, h),
 {
+    assert(a < 0x1_0000_0000 ==> (a ^ 0xFFFF_FFFFu64) == sub(0xFFFF_FFFFu64, a)) by (bit_vector);
+    assert((a ^ 0xFFFF_FFFFu64) as int == 0xFFFF_FFFF - a as int);
     if h == 0 {
         assert(p2(32) == 4294967296) by (compute_only);
         assert(p2(31) == 2147483648) by (compute_only);
         assert(a < 0x1_0000_0000 ==> (((a & 2147483648u64) == 2147483648u64) <==> (2147483648u64 <= a && a < 4294967296u64))) by (bit_vector);
-        assert(a < 0x1_0000_0000 ==> (((a & 2147483648u64) == 0u64) <==> (2147483648u64 <= (0xFFFF_FFFFu64 - a) && (0xFFFF_FFFFu64 - a) < 4294967296u64))) by (bit_vector);
+        assert(a < 0x1_0000_0000 ==> (((a & 2147483648u64) == 0u64) <==> (2147483648u64 <= (a ^ 0xFFFF_FFFFu64) && (a ^ 0xFFFF_FFFFu64) < 4294967296u64))) by (bit_vector);
     } else if h == 1 {
         assert(p2(31) == 2147483648) by (compute_only);
         assert(p2(30) == 1073741824) by (compute_only);
         assert(a < 0x1_0000_0000 ==> (((a & 3221225472u64) == 1073741824u64) <==> (1073741824u64 <= a && a < 2147483648u64))) by (bit_vector);
-        assert(a < 0x1_0000_0000 ==> (((a & 3221225472u64) == 2147483648u64) <==> (1073741824u64 <= (0xFFFF_FFFFu64 - a) && (0xFFFF_FFFFu64 - a) < 2147483648u64))) by (bit_vector);
+        assert(a < 0x1_0000_0000 ==> (((a & 3221225472u64) == 2147483648u64) <==> (1073741824u64 <= (a ^ 0xFFFF_FFFFu64) && (a ^ 0xFFFF_FFFFu64) < 2147483648u64))) by (bit_vector);
     } else if h == 2 {
         assert(p2(30) == 1073741824) by (compute_only);
         assert(p2(29) == 536870912) by (compute_only);
         assert(a < 0x1_0000_0000 ==> (((a & 3758096384u64) == 536870912u64) <==> (536870912u64 <= a && a < 1073741824u64))) by (bit_vector);
-        assert(a < 0x1_0000_0000 ==> (((a & 3758096384u64) == 3221225472u64) <==> (536870912u64 <= (0xFFFF_FFFFu64 - a) && (0xFFFF_FFFFu64 - a) < 1073741824u64))) by (bit_vector);
+        assert(a < 0x1_0000_0000 ==> (((a & 3758096384u64) == 3221225472u64) <==> (536870912u64 <= (a ^ 0xFFFF_FFFFu64) && (a ^ 0xFFFF_FFFFu64) < 1073741824u64))) by (bit_vector);
     } else if h == 3 {
         assert(p2(29) == 536870912) by (compute_only);
         assert(p2(28) == 268435456) by (compute_only);
         assert(a < 0x1_0000_0000 ==> (((a & 4026531840u64) == 268435456u64) <==> (268435456u64 <= a && a < 536870912u64))) by (bit_vector);
-        assert(a < 0x1_0000_0000 ==> (((a & 4026531840u64) == 3758096384u64) <==> (268435456u64 <= (0xFFFF_FFFFu64 - a) && (0xFFFF_FFFFu64 - a) < 536870912u64))) by (bit_vector);
+        assert(a < 0x1_0000_0000 ==> (((a & 4026531840u64) == 3758096384u64) <==> (268435456u64 <= (a ^ 0xFFFF_FFFFu64) && (a ^ 0xFFFF_FFFFu64) < 536870912u64))) by (bit_vector);
     } else if h == 4 {
         assert(p2(28) == 268435456) by (compute_only);
         assert(p2(27) == 134217728) by (compute_only);
         assert(a < 0x1_0000_0000 ==> (((a & 4160749568u64) == 134217728u64) <==> (134217728u64 <= a && a < 268435456u64))) by (bit_vector);
-        assert(a < 0x1_0000_0000 ==> (((a & 4160749568u64) == 4026531840u64) <==> (134217728u64 <= (0xFFFF_FFFFu64 - a) && (0xFFFF_FFFFu64 - a) < 268435456u64))) by (bit_vector);
+        assert(a < 0x1_0000_0000 ==> (((a & 4160749568u64) == 4026531840u64) <==> (134217728u64 <= (a ^ 0xFFFF_FFFFu64) && (a ^ 0xFFFF_FFFFu64) < 268435456u64))) by (bit_vector);
     } else if h == 5 {
         assert(p2(27) == 134217728) by (compute_only);
         assert(p2(26) == 67108864) by (compute_only);
         assert(a < 0x1_0000_0000 ==> (((a & 4227858432u64) == 67108864u64) <==> (67108864u64 <= a && a < 134217728u64))) by (bit_vector);
-        assert(a < 0x1_0000_0000 ==> (((a & 4227858432u64) == 4160749568u64) <==> (67108864u64 <= (0xFFFF_FFFFu64 - a) && (0xFFFF_FFFFu64 - a) < 134217728u64))) by (bit_vector);
+        assert(a < 0x1_0000_0000 ==> (((a & 4227858432u64) == 4160749568u64) <==> (67108864u64 <= (a ^ 0xFFFF_FFFFu64) && (a ^ 0xFFFF_FFFFu64) < 134217728u64))) by (bit_vector);
     } else if h == 6 {
         assert(p2(26) == 67108864) by (compute_only);
         assert(p2(25) == 33554432) by (compute_only);
         assert(a < 0x1_0000_0000 ==> (((a & 4261412864u64) == 33554432u64) <==> (33554432u64 <= a && a < 67108864u64))) by (bit_vector);
-        assert(a < 0x1_0000_0000 ==> (((a & 4261412864u64) == 4227858432u64) <==> (33554432u64 <= (0xFFFF_FFFFu64 - a) && (0xFFFF_FFFFu64 - a) < 67108864u64))) by (bit_vector);
+        assert(a < 0x1_0000_0000 ==> (((a & 4261412864u64) == 4227858432u64) <==> (33554432u64 <= (a ^ 0xFFFF_FFFFu64) && (a ^ 0xFFFF_FFFFu64) < 67108864u64))) by (bit_vector);
     } else if h == 7 {
         assert(p2(25) == 33554432) by (compute_only);
         assert(p2(24) == 16777216) by (compute_only);
         assert(a < 0x1_0000_0000 ==> (((a & 4278190080u64) == 16777216u64) <==> (16777216u64 <= a && a < 33554432u64))) by (bit_vector);
-        assert(a < 0x1_0000_0000 ==> (((a & 4278190080u64) == 4261412864u64) <==> (16777216u64 <= (0xFFFF_FFFFu64 - a) && (0xFFFF_FFFFu64 - a) < 33554432u64))) by (bit_vector);
+        assert(a < 0x1_0000_0000 ==> (((a & 4278190080u64) == 4261412864u64) <==> (16777216u64 <= (a ^ 0xFFFF_FFFFu64) && (a ^ 0xFFFF_FFFFu64) < 33554432u64))) by (bit_vector);
     } else if h == 8 {
         assert(p2(24) == 16777216) by (compute_only);
         assert(p2(23) == 8388608) by (compute_only);
         assert(a < 0x1_0000_0000 ==> (((a & 4286578688u64) == 8388608u64) <==> (8388608u64 <= a && a < 16777216u64))) by (bit_vector);
-        assert(a < 0x1_0000_0000 ==> (((a & 4286578688u64) == 4278190080u64) <==> (8388608u64 <= (0xFFFF_FFFFu64 - a) && (0xFFFF_FFFFu64 - a) < 16777216u64))) by (bit_vector);
+        assert(a < 0x1_0000_0000 ==> (((a & 4286578688u64) == 4278190080u64) <==> (8388608u64 <= (a ^ 0xFFFF_FFFFu64) && (a ^ 0xFFFF_FFFFu64) < 16777216u64))) by (bit_vector);
     } else if h == 9 {
         assert(p2(23) == 8388608) by (compute_only);
         assert(p2(22) == 4194304) by (compute_only);
         assert(a < 0x1_0000_0000 ==> (((a & 4290772992u64) == 4194304u64) <==> (4194304u64 <= a && a < 8388608u64))) by (bit_vector);
-        assert(a < 0x1_0000_0000 ==> (((a & 4290772992u64) == 4286578688u64) <==> (4194304u64 <= (0xFFFF_FFFFu64 - a) && (0xFFFF_FFFFu64 - a) < 8388608u64))) by (bit_vector);
+        assert(a < 0x1_0000_0000 ==> (((a & 4290772992u64) == 4286578688u64) <==> (4194304u64 <= (a ^ 0xFFFF_FFFFu64) && (a ^ 0xFFFF_FFFFu64) < 8388608u64))) by (bit_vector);
     } else if h == 10 {
         assert(p2(22) == 4194304) by (compute_only);
         assert(p2(21) == 2097152) by (compute_only);
         assert(a < 0x1_0000_0000 ==> (((a & 4292870144u64) == 2097152u64) <==> (2097152u64 <= a && a < 4194304u64))) by (bit_vector);
-        assert(a < 0x1_0000_0000 ==> (((a & 4292870144u64) == 4290772992u64) <==> (2097152u64 <= (0xFFFF_FFFFu64 - a) && (0xFFFF_FFFFu64 - a) < 4194304u64))) by (bit_vector);
+        assert(a < 0x1_0000_0000 ==> (((a & 4292870144u64) == 4290772992u64) <==> (2097152u64 <= (a ^ 0xFFFF_FFFFu64) && (a ^ 0xFFFF_FFFFu64) < 4194304u64))) by (bit_vector);
     } else if h == 11 {
         assert(p2(21) == 2097152) by (compute_only);
         assert(p2(20) == 1048576) by (compute_only);
         assert(a < 0x1_0000_0000 ==> (((a & 4293918720u64) == 1048576u64) <==> (1048576u64 <= a && a < 2097152u64))) by (bit_vector);
-        assert(a < 0x1_0000_0000 ==> (((a & 4293918720u64) == 4292870144u64) <==> (1048576u64 <= (0xFFFF_FFFFu64 - a) && (0xFFFF_FFFFu64 - a) < 2097152u64))) by (bit_vector);
+        assert(a < 0x1_0000_0000 ==> (((a & 4293918720u64) == 4292870144u64) <==> (1048576u64 <= (a ^ 0xFFFF_FFFFu64) && (a ^ 0xFFFF_FFFFu64) < 2097152u64))) by (bit_vector);
     } else if h == 12 {
         assert(p2(20) == 1048576) by (compute_only);
         assert(p2(19) == 524288) by (compute_only);
         assert(a < 0x1_0000_0000 ==> (((a & 4294443008u64) == 524288u64) <==> (524288u64 <= a && a < 1048576u64))) by (bit_vector);
-        assert(a < 0x1_0000_0000 ==> (((a & 4294443008u64) == 4293918720u64) <==> (524288u64 <= (0xFFFF_FFFFu64 - a) && (0xFFFF_FFFFu64 - a) < 1048576u64))) by (bit_vector);
+        assert(a < 0x1_0000_0000 ==> (((a & 4294443008u64) == 4293918720u64) <==> (524288u64 <= (a ^ 0xFFFF_FFFFu64) && (a ^ 0xFFFF_FFFFu64) < 1048576u64))) by (bit_vector);
     } else if h == 13 {
         assert(p2(19) == 524288) by (compute_only);
         assert(p2(18) == 262144) by (compute_only);
         assert(a < 0x1_0000_0000 ==> (((a & 4294705152u64) == 262144u64) <==> (262144u64 <= a && a < 524288u64))) by (bit_vector);
-        assert(a < 0x1_0000_0000 ==> (((a & 4294705152u64) == 4294443008u64) <==> (262144u64 <= (0xFFFF_FFFFu64 - a) && (0xFFFF_FFFFu64 - a) < 524288u64))) by (bit_vector);
+        assert(a < 0x1_0000_0000 ==> (((a & 4294705152u64) == 4294443008u64) <==> (262144u64 <= (a ^ 0xFFFF_FFFFu64) && (a ^ 0xFFFF_FFFFu64) < 524288u64))) by (bit_vector);
     } else if h == 14 {
         assert(p2(18) == 262144) by (compute_only);
         assert(p2(17) == 131072) by (compute_only);
         assert(a < 0x1_0000_0000 ==> (((a & 4294836224u64) == 131072u64) <==> (131072u64 <= a && a < 262144u64))) by (bit_vector);
-        assert(a < 0x1_0000_0000 ==> (((a & 4294836224u64) == 4294705152u64) <==> (131072u64 <= (0xFFFF_FFFFu64 - a) && (0xFFFF_FFFFu64 - a) < 262144u64))) by (bit_vector);
+        assert(a < 0x1_0000_0000 ==> (((a & 4294836224u64) == 4294705152u64) <==> (131072u64 <= (a ^ 0xFFFF_FFFFu64) && (a ^ 0xFFFF_FFFFu64) < 262144u64))) by (bit_vector);
     } else if h == 15 {
         assert(p2(17) == 131072) by (compute_only);
         assert(p2(16) == 65536) by (compute_only);
         assert(a < 0x1_0000_0000 ==> (((a & 4294901760u64) == 65536u64) <==> (65536u64 <= a && a < 131072u64))) by (bit_vector);
-        assert(a < 0x1_0000_0000 ==> (((a & 4294901760u64) == 4294836224u64) <==> (65536u64 <= (0xFFFF_FFFFu64 - a) && (0xFFFF_FFFFu64 - a) < 131072u64))) by (bit_vector);
+        assert(a < 0x1_0000_0000 ==> (((a & 4294901760u64) == 4294836224u64) <==> (65536u64 <= (a ^ 0xFFFF_FFFFu64) && (a ^ 0xFFFF_FFFFu64) < 131072u64))) by (bit_vector);
     } else if h == 16 {
         assert(p2(16) == 65536) by (compute_only);
         assert(p2(15) == 32768) by (compute_only);
         assert(a < 0x1_0000_0000 ==> (((a & 4294934528u64) == 32768u64) <==> (32768u64 <= a && a < 65536u64))) by (bit_vector);
-        assert(a < 0x1_0000_0000 ==> (((a & 4294934528u64) == 4294901760u64) <==> (32768u64 <= (0xFFFF_FFFFu64 - a) && (0xFFFF_FFFFu64 - a) < 65536u64))) by (bit_vector);
+        assert(a < 0x1_0000_0000 ==> (((a & 4294934528u64) == 4294901760u64) <==> (32768u64 <= (a ^ 0xFFFF_FFFFu64) && (a ^ 0xFFFF_FFFFu64) < 65536u64))) by (bit_vector);
     } else if h == 17 {
         assert(p2(15) == 32768) by (compute_only);
         assert(p2(14) == 16384) by (compute_only);
         assert(a < 0x1_0000_0000 ==> (((a & 4294950912u64) == 16384u64) <==> (16384u64 <= a && a < 32768u64))) by (bit_vector);
-        assert(a < 0x1_0000_0000 ==> (((a & 4294950912u64) == 4294934528u64) <==> (16384u64 <= (0xFFFF_FFFFu64 - a) && (0xFFFF_FFFFu64 - a) < 32768u64))) by (bit_vector);
+        assert(a < 0x1_0000_0000 ==> (((a & 4294950912u64) == 4294934528u64) <==> (16384u64 <= (a ^ 0xFFFF_FFFFu64) && (a ^ 0xFFFF_FFFFu64) < 32768u64))) by (bit_vector);
     } else if h == 18 {
         assert(p2(14) == 16384) by (compute_only);
         assert(p2(13) == 8192) by (compute_only);
         assert(a < 0x1_0000_0000 ==> (((a & 4294959104u64) == 8192u64) <==> (8192u64 <= a && a < 16384u64))) by (bit_vector);
-        assert(a < 0x1_0000_0000 ==> (((a & 4294959104u64) == 4294950912u64) <==> (8192u64 <= (0xFFFF_FFFFu64 - a) && (0xFFFF_FFFFu64 - a) < 16384u64))) by (bit_vector);
+        assert(a < 0x1_0000_0000 ==> (((a & 4294959104u64) == 4294950912u64) <==> (8192u64 <= (a ^ 0xFFFF_FFFFu64) && (a ^ 0xFFFF_FFFFu64) < 16384u64))) by (bit_vector);
     } else if h == 19 {
         assert(p2(13) == 8192) by (compute_only);
         assert(p2(12) == 4096) by (compute_only);
         assert(a < 0x1_0000_0000 ==> (((a & 4294963200u64) == 4096u64) <==> (4096u64 <= a && a < 8192u64))) by (bit_vector);
-        assert(a < 0x1_0000_0000 ==> (((a & 4294963200u64) == 4294959104u64) <==> (4096u64 <= (0xFFFF_FFFFu64 - a) && (0xFFFF_FFFFu64 - a) < 8192u64))) by (bit_vector);
+        assert(a < 0x1_0000_0000 ==> (((a & 4294963200u64) == 4294959104u64) <==> (4096u64 <= (a ^ 0xFFFF_FFFFu64) && (a ^ 0xFFFF_FFFFu64) < 8192u64))) by (bit_vector);
     } else if h == 20 {
         assert(p2(12) == 4096) by (compute_only);
         assert(p2(11) == 2048) by (compute_only);
         assert(a < 0x1_0000_0000 ==> (((a & 4294965248u64) == 2048u64) <==> (2048u64 <= a && a < 4096u64))) by (bit_vector);
-        assert(a < 0x1_0000_0000 ==> (((a & 4294965248u64) == 4294963200u64) <==> (2048u64 <= (0xFFFF_FFFFu64 - a) && (0xFFFF_FFFFu64 - a) < 4096u64))) by (bit_vector);
+        assert(a < 0x1_0000_0000 ==> (((a & 4294965248u64) == 4294963200u64) <==> (2048u64 <= (a ^ 0xFFFF_FFFFu64) && (a ^ 0xFFFF_FFFFu64) < 4096u64))) by (bit_vector);
     } else if h == 21 {
         assert(p2(11) == 2048) by (compute_only);
         assert(p2(10) == 1024) by (compute_only);
         assert(a < 0x1_0000_0000 ==> (((a & 4294966272u64) == 1024u64) <==> (1024u64 <= a && a < 2048u64))) by (bit_vector);
-        assert(a < 0x1_0000_0000 ==> (((a & 4294966272u64) == 4294965248u64) <==> (1024u64 <= (0xFFFF_FFFFu64 - a) && (0xFFFF_FFFFu64 - a) < 2048u64))) by (bit_vector);
+        assert(a < 0x1_0000_0000 ==> (((a & 4294966272u64) == 4294965248u64) <==> (1024u64 <= (a ^ 0xFFFF_FFFFu64) && (a ^ 0xFFFF_FFFFu64) < 2048u64))) by (bit_vector);
     } else if h == 22 {
         assert(p2(10) == 1024) by (compute_only);
         assert(p2(9) == 512) by (compute_only);
         assert(a < 0x1_0000_0000 ==> (((a & 4294966784u64) == 512u64) <==> (512u64 <= a && a < 1024u64))) by (bit_vector);
-        assert(a < 0x1_0000_0000 ==> (((a & 4294966784u64) == 4294966272u64) <==> (512u64 <= (0xFFFF_FFFFu64 - a) && (0xFFFF_FFFFu64 - a) < 1024u64))) by (bit_vector);
+        assert(a < 0x1_0000_0000 ==> (((a & 4294966784u64) == 4294966272u64) <==> (512u64 <= (a ^ 0xFFFF_FFFFu64) && (a ^ 0xFFFF_FFFFu64) < 1024u64))) by (bit_vector);
     } else if h == 23 {
         assert(p2(9) == 512) by (compute_only);
         assert(p2(8) == 256) by (compute_only);
         assert(a < 0x1_0000_0000 ==> (((a & 4294967040u64) == 256u64) <==> (256u64 <= a && a < 512u64))) by (bit_vector);
-        assert(a < 0x1_0000_0000 ==> (((a & 4294967040u64) == 4294966784u64) <==> (256u64 <= (0xFFFF_FFFFu64 - a) && (0xFFFF_FFFFu64 - a) < 512u64))) by (bit_vector);
+        assert(a < 0x1_0000_0000 ==> (((a & 4294967040u64) == 4294966784u64) <==> (256u64 <= (a ^ 0xFFFF_FFFFu64) && (a ^ 0xFFFF_FFFFu64) < 512u64))) by (bit_vector);
     } else if h == 24 {
         assert(p2(8) == 256) by (compute_only);
         assert(p2(7) == 128) by (compute_only);
         assert(a < 0x1_0000_0000 ==> (((a & 4294967168u64) == 128u64) <==> (128u64 <= a && a < 256u64))) by (bit_vector);
-        assert(a < 0x1_0000_0000 ==> (((a & 4294967168u64) == 4294967040u64) <==> (128u64 <= (0xFFFF_FFFFu64 - a) && (0xFFFF_FFFFu64 - a) < 256u64))) by (bit_vector);
+        assert(a < 0x1_0000_0000 ==> (((a & 4294967168u64) == 4294967040u64) <==> (128u64 <= (a ^ 0xFFFF_FFFFu64) && (a ^ 0xFFFF_FFFFu64) < 256u64))) by (bit_vector);
     } else if h == 25 {
         assert(p2(7) == 128) by (compute_only);
         assert(p2(6) == 64) by (compute_only);
         assert(a < 0x1_0000_0000 ==> (((a & 4294967232u64) == 64u64) <==> (64u64 <= a && a < 128u64))) by (bit_vector);
-        assert(a < 0x1_0000_0000 ==> (((a & 4294967232u64) == 4294967168u64) <==> (64u64 <= (0xFFFF_FFFFu64 - a) && (0xFFFF_FFFFu64 - a) < 128u64))) by (bit_vector);
+        assert(a < 0x1_0000_0000 ==> (((a & 4294967232u64) == 4294967168u64) <==> (64u64 <= (a ^ 0xFFFF_FFFFu64) && (a ^ 0xFFFF_FFFFu64) < 128u64))) by (bit_vector);
     } else if h == 26 {
         assert(p2(6) == 64) by (compute_only);
         assert(p2(5) == 32) by (compute_only);
         assert(a < 0x1_0000_0000 ==> (((a & 4294967264u64) == 32u64) <==> (32u64 <= a && a < 64u64))) by (bit_vector);
-        assert(a < 0x1_0000_0000 ==> (((a & 4294967264u64) == 4294967232u64) <==> (32u64 <= (0xFFFF_FFFFu64 - a) && (0xFFFF_FFFFu64 - a) < 64u64))) by (bit_vector);
+        assert(a < 0x1_0000_0000 ==> (((a & 4294967264u64) == 4294967232u64) <==> (32u64 <= (a ^ 0xFFFF_FFFFu64) && (a ^ 0xFFFF_FFFFu64) < 64u64))) by (bit_vector);
     } else if h == 27 {
         assert(p2(5) == 32) by (compute_only);
         assert(p2(4) == 16) by (compute_only);
         assert(a < 0x1_0000_0000 ==> (((a & 4294967280u64) == 16u64) <==> (16u64 <= a && a < 32u64))) by (bit_vector);
-        assert(a < 0x1_0000_0000 ==> (((a & 4294967280u64) == 4294967264u64) <==> (16u64 <= (0xFFFF_FFFFu64 - a) && (0xFFFF_FFFFu64 - a) < 32u64))) by (bit_vector);
+        assert(a < 0x1_0000_0000 ==> (((a & 4294967280u64) == 4294967264u64) <==> (16u64 <= (a ^ 0xFFFF_FFFFu64) && (a ^ 0xFFFF_FFFFu64) < 32u64))) by (bit_vector);
     } else if h == 28 {
         assert(p2(4) == 16) by (compute_only);
         assert(p2(3) == 8) by (compute_only);
         assert(a < 0x1_0000_0000 ==> (((a & 4294967288u64) == 8u64) <==> (8u64 <= a && a < 16u64))) by (bit_vector);
-        assert(a < 0x1_0000_0000 ==> (((a & 4294967288u64) == 4294967280u64) <==> (8u64 <= (0xFFFF_FFFFu64 - a) && (0xFFFF_FFFFu64 - a) < 16u64))) by (bit_vector);
+        assert(a < 0x1_0000_0000 ==> (((a & 4294967288u64) == 4294967280u64) <==> (8u64 <= (a ^ 0xFFFF_FFFFu64) && (a ^ 0xFFFF_FFFFu64) < 16u64))) by (bit_vector);
     } else if h == 29 {
         assert(p2(3) == 8) by (compute_only);
         assert(p2(2) == 4) by (compute_only);
         assert(a < 0x1_0000_0000 ==> (((a & 4294967292u64) == 4u64) <==> (4u64 <= a && a < 8u64))) by (bit_vector);
-        assert(a < 0x1_0000_0000 ==> (((a & 4294967292u64) == 4294967288u64) <==> (4u64 <= (0xFFFF_FFFFu64 - a) && (0xFFFF_FFFFu64 - a) < 8u64))) by (bit_vector);
+        assert(a < 0x1_0000_0000 ==> (((a & 4294967292u64) == 4294967288u64) <==> (4u64 <= (a ^ 0xFFFF_FFFFu64) && (a ^ 0xFFFF_FFFFu64) < 8u64))) by (bit_vector);
     } else if h == 30 {
         assert(p2(2) == 4) by (compute_only);
         assert(p2(1) == 2) by (compute_only);
         assert(a < 0x1_0000_0000 ==> (((a & 4294967294u64) == 2u64) <==> (2u64 <= a && a < 4u64))) by (bit_vector);
-        assert(a < 0x1_0000_0000 ==> (((a & 4294967294u64) == 4294967292u64) <==> (2u64 <= (0xFFFF_FFFFu64 - a) && (0xFFFF_FFFFu64 - a) < 4u64))) by (bit_vector);
+        assert(a < 0x1_0000_0000 ==> (((a & 4294967294u64) == 4294967292u64) <==> (2u64 <= (a ^ 0xFFFF_FFFFu64) && (a ^ 0xFFFF_FFFFu64) < 4u64))) by (bit_vector);
     } else if h == 31 {
         assert(p2(1) == 2) by (compute_only);
         assert(p2(0) == 1) by (compute_only);
         assert(a < 0x1_0000_0000 ==> (((a & 4294967295u64) == 1u64) <==> (1u64 <= a && a < 2u64))) by (bit_vector);
-        assert(a < 0x1_0000_0000 ==> (((a & 4294967295u64) == 4294967294u64) <==> (1u64 <= (0xFFFF_FFFFu64 - a) && (0xFFFF_FFFFu64 - a) < 2u64))) by (bit_vector);
+        assert(a < 0x1_0000_0000 ==> (((a & 4294967295u64) == 4294967294u64) <==> (1u64 <= (a ^ 0xFFFF_FFFFu64) && (a ^ 0xFFFF_FFFFu64) < 2u64))) by (bit_vector);
     } else if h == 32 {
         assert(p2(0) == 1) by (compute_only);
         assert(a < 0x1_0000_0000 ==> (((a & 4294967295u64) == 0u64) <==> (a == 0u64))) by (bit_vector);
@@ -189,169 +191,235 @@ pub proof fn lemma_ctz_mask(a: u64, h: int)
         // trailing ones
         ((a & (ctz_mask(h) as u64)) == (p2(h) - 1) as u64) <==> ctz_is(0xFFFF_FFFF - a as int, h),
 {
+    assert(a < 0x1_0000_0000 ==> (a ^ 0xFFFF_FFFFu64) == sub(0xFFFF_FFFFu64, a)) by (bit_vector);
+    assert((a ^ 0xFFFF_FFFFu64) as int == 0xFFFF_FFFF - a as int);
     if h == 0 {
         assert(p2(0) == 1) by (compute_only);
         assert(p2(1) == 2) by (compute_only);
         assert(a < 0x1_0000_0000 ==> (((a & 1u64) == 1u64) <==> (a % 2u64 == 1u64))) by (bit_vector);
-        assert(a < 0x1_0000_0000 ==> (((a & 1u64) == 0u64) <==> ((0xFFFF_FFFFu64 - a) % 2u64 == 1u64))) by (bit_vector);
+        assert(a < 0x1_0000_0000 ==> (((a & 1u64) == 0u64) <==> ((a ^ 0xFFFF_FFFFu64) % 2u64 == 1u64))) by (bit_vector);
     } else if h == 1 {
         assert(p2(1) == 2) by (compute_only);
         assert(p2(2) == 4) by (compute_only);
         assert(a < 0x1_0000_0000 ==> (((a & 3u64) == 2u64) <==> (a % 4u64 == 2u64))) by (bit_vector);
-        assert(a < 0x1_0000_0000 ==> (((a & 3u64) == 1u64) <==> ((0xFFFF_FFFFu64 - a) % 4u64 == 2u64))) by (bit_vector);
+        assert(a < 0x1_0000_0000 ==> (((a & 3u64) == 1u64) <==> ((a ^ 0xFFFF_FFFFu64) % 4u64 == 2u64))) by (bit_vector);
     } else if h == 2 {
         assert(p2(2) == 4) by (compute_only);
         assert(p2(3) == 8) by (compute_only);
         assert(a < 0x1_0000_0000 ==> (((a & 7u64) == 4u64) <==> (a % 8u64 == 4u64))) by (bit_vector);
-        assert(a < 0x1_0000_0000 ==> (((a & 7u64) == 3u64) <==> ((0xFFFF_FFFFu64 - a) % 8u64 == 4u64))) by (bit_vector);
+        assert(a < 0x1_0000_0000 ==> (((a & 7u64) == 3u64) <==> ((a ^ 0xFFFF_FFFFu64) % 8u64 == 4u64))) by (bit_vector);
     } else if h == 3 {
         assert(p2(3) == 8) by (compute_only);
         assert(p2(4) == 16) by (compute_only);
         assert(a < 0x1_0000_0000 ==> (((a & 15u64) == 8u64) <==> (a % 16u64 == 8u64))) by (bit_vector);
-        assert(a < 0x1_0000_0000 ==> (((a & 15u64) == 7u64) <==> ((0xFFFF_FFFFu64 - a) % 16u64 == 8u64))) by (bit_vector);
+        assert(a < 0x1_0000_0000 ==> (((a & 15u64) == 7u64) <==> ((a ^ 0xFFFF_FFFFu64) % 16u64 == 8u64))) by (bit_vector);
     } else if h == 4 {
         assert(p2(4) == 16) by (compute_only);
         assert(p2(5) == 32) by (compute_only);
         assert(a < 0x1_0000_0000 ==> (((a & 31u64) == 16u64) <==> (a % 32u64 == 16u64))) by (bit_vector);
-        assert(a < 0x1_0000_0000 ==> (((a & 31u64) == 15u64) <==> ((0xFFFF_FFFFu64 - a) % 32u64 == 16u64))) by (bit_vector);
+        assert(a < 0x1_0000_0000 ==> (((a & 31u64) == 15u64) <==> ((a ^ 0xFFFF_FFFFu64) % 32u64 == 16u64))) by (bit_vector);
     } else if h == 5 {
         assert(p2(5) == 32) by (compute_only);
         assert(p2(6) == 64) by (compute_only);
         assert(a < 0x1_0000_0000 ==> (((a & 63u64) == 32u64) <==> (a % 64u64 == 32u64))) by (bit_vector);
-        assert(a < 0x1_0000_0000 ==> (((a & 63u64) == 31u64) <==> ((0xFFFF_FFFFu64 - a) % 64u64 == 32u64))) by (bit_vector);
+        assert(a < 0x1_0000_0000 ==> (((a & 63u64) == 31u64) <==> ((a ^ 0xFFFF_FFFFu64) % 64u64 == 32u64))) by (bit_vector);
     } else if h == 6 {
         assert(p2(6) == 64) by (compute_only);
         assert(p2(7) == 128) by (compute_only);
         assert(a < 0x1_0000_0000 ==> (((a & 127u64) == 64u64) <==> (a % 128u64 == 64u64))) by (bit_vector);
-        assert(a < 0x1_0000_0000 ==> (((a & 127u64) == 63u64) <==> ((0xFFFF_FFFFu64 - a) % 128u64 == 64u64))) by (bit_vector);
+        assert(a < 0x1_0000_0000 ==> (((a & 127u64) == 63u64) <==> ((a ^ 0xFFFF_FFFFu64) % 128u64 == 64u64))) by (bit_vector);
     } else if h == 7 {
         assert(p2(7) == 128) by (compute_only);
         assert(p2(8) == 256) by (compute_only);
         assert(a < 0x1_0000_0000 ==> (((a & 255u64) == 128u64) <==> (a % 256u64 == 128u64))) by (bit_vector);
-        assert(a < 0x1_0000_0000 ==> (((a & 255u64) == 127u64) <==> ((0xFFFF_FFFFu64 - a) % 256u64 == 128u64))) by (bit_vector);
+        assert(a < 0x1_0000_0000 ==> (((a & 255u64) == 127u64) <==> ((a ^ 0xFFFF_FFFFu64) % 256u64 == 128u64))) by (bit_vector);
     } else if h == 8 {
         assert(p2(8) == 256) by (compute_only);
         assert(p2(9) == 512) by (compute_only);
         assert(a < 0x1_0000_0000 ==> (((a & 511u64) == 256u64) <==> (a % 512u64 == 256u64))) by (bit_vector);
-        assert(a < 0x1_0000_0000 ==> (((a & 511u64) == 255u64) <==> ((0xFFFF_FFFFu64 - a) % 512u64 == 256u64))) by (bit_vector);
+        assert(a < 0x1_0000_0000 ==> (((a & 511u64) == 255u64) <==> ((a ^ 0xFFFF_FFFFu64) % 512u64 == 256u64))) by (bit_vector);
     } else if h == 9 {
         assert(p2(9) == 512) by (compute_only);
         assert(p2(10) == 1024) by (compute_only);
         assert(a < 0x1_0000_0000 ==> (((a & 1023u64) == 512u64) <==> (a % 1024u64 == 512u64))) by (bit_vector);
-        assert(a < 0x1_0000_0000 ==> (((a & 1023u64) == 511u64) <==> ((0xFFFF_FFFFu64 - a) % 1024u64 == 512u64))) by (bit_vector);
+        assert(a < 0x1_0000_0000 ==> (((a & 1023u64) == 511u64) <==> ((a ^ 0xFFFF_FFFFu64) % 1024u64 == 512u64))) by (bit_vector);
     } else if h == 10 {
         assert(p2(10) == 1024) by (compute_only);
         assert(p2(11) == 2048) by (compute_only);
         assert(a < 0x1_0000_0000 ==> (((a & 2047u64) == 1024u64) <==> (a % 2048u64 == 1024u64))) by (bit_vector);
-        assert(a < 0x1_0000_0000 ==> (((a & 2047u64) == 1023u64) <==> ((0xFFFF_FFFFu64 - a) % 2048u64 == 1024u64))) by (bit_vector);
+        assert(a < 0x1_0000_0000 ==> (((a & 2047u64) == 1023u64) <==> ((a ^ 0xFFFF_FFFFu64) % 2048u64 == 1024u64))) by (bit_vector);
     } else if h == 11 {
         assert(p2(11) == 2048) by (compute_only);
         assert(p2(12) == 4096) by (compute_only);
         assert(a < 0x1_0000_0000 ==> (((a & 4095u64) == 2048u64) <==> (a % 4096u64 == 2048u64))) by (bit_vector);
-        assert(a < 0x1_0000_0000 ==> (((a & 4095u64) == 2047u64) <==> ((0xFFFF_FFFFu64 - a) % 4096u64 == 2048u64))) by (bit_vector);
+        assert(a < 0x1_0000_0000 ==> (((a & 4095u64) == 2047u64) <==> ((a ^ 0xFFFF_FFFFu64) % 4096u64 == 2048u64))) by (bit_vector);
     } else if h == 12 {
         assert(p2(12) == 4096) by (compute_only);
         assert(p2(13) == 8192) by (compute_only);
         assert(a < 0x1_0000_0000 ==> (((a & 8191u64) == 4096u64) <==> (a % 8192u64 == 4096u64))) by (bit_vector);
-        assert(a < 0x1_0000_0000 ==> (((a & 8191u64) == 4095u64) <==> ((0xFFFF_FFFFu64 - a) % 8192u64 == 4096u64))) by (bit_vector);
+        assert(a < 0x1_0000_0000 ==> (((a & 8191u64) == 4095u64) <==> ((a ^ 0xFFFF_FFFFu64) % 8192u64 == 4096u64))) by (bit_vector);
     } else if h == 13 {
         assert(p2(13) == 8192) by (compute_only);
         assert(p2(14) == 16384) by (compute_only);
         assert(a < 0x1_0000_0000 ==> (((a & 16383u64) == 8192u64) <==> (a % 16384u64 == 8192u64))) by (bit_vector);
-        assert(a < 0x1_0000_0000 ==> (((a & 16383u64) == 8191u64) <==> ((0xFFFF_FFFFu64 - a) % 16384u64 == 8192u64))) by (bit_vector);
+        assert(a < 0x1_0000_0000 ==> (((a & 16383u64) == 8191u64) <==> ((a ^ 0xFFFF_FFFFu64) % 16384u64 == 8192u64))) by (bit_vector);
     } else if h == 14 {
         assert(p2(14) == 16384) by (compute_only);
         assert(p2(15) == 32768) by (compute_only);
         assert(a < 0x1_0000_0000 ==> (((a & 32767u64) == 16384u64) <==> (a % 32768u64 == 16384u64))) by (bit_vector);
-        assert(a < 0x1_0000_0000 ==> (((a & 32767u64) == 16383u64) <==> ((0xFFFF_FFFFu64 - a) % 32768u64 == 16384u64))) by (bit_vector);
+        assert(a < 0x1_0000_0000 ==> (((a & 32767u64) == 16383u64) <==> ((a ^ 0xFFFF_FFFFu64) % 32768u64 == 16384u64))) by (bit_vector);
     } else if h == 15 {
         assert(p2(15) == 32768) by (compute_only);
         assert(p2(16) == 65536) by (compute_only);
         assert(a < 0x1_0000_0000 ==> (((a & 65535u64) == 32768u64) <==> (a % 65536u64 == 32768u64))) by (bit_vector);
-        assert(a < 0x1_0000_0000 ==> (((a & 65535u64) == 32767u64) <==> ((0xFFFF_FFFFu64 - a) % 65536u64 == 32768u64))) by (bit_vector);
+        assert(a < 0x1_0000_0000 ==> (((a & 65535u64) == 32767u64) <==> ((a ^ 0xFFFF_FFFFu64) % 65536u64 == 32768u64))) by (bit_vector);
     } else if h == 16 {
         assert(p2(16) == 65536) by (compute_only);
         assert(p2(17) == 131072) by (compute_only);
         assert(a < 0x1_0000_0000 ==> (((a & 131071u64) == 65536u64) <==> (a % 131072u64 == 65536u64))) by (bit_vector);
-        assert(a < 0x1_0000_0000 ==> (((a & 131071u64) == 65535u64) <==> ((0xFFFF_FFFFu64 - a) % 131072u64 == 65536u64))) by (bit_vector);
+        assert(a < 0x1_0000_0000 ==> (((a & 131071u64) == 65535u64) <==> ((a ^ 0xFFFF_FFFFu64) % 131072u64 == 65536u64))) by (bit_vector);
     } else if h == 17 {
         assert(p2(17) == 131072) by (compute_only);
         assert(p2(18) == 262144) by (compute_only);
         assert(a < 0x1_0000_0000 ==> (((a & 262143u64) == 131072u64) <==> (a % 262144u64 == 131072u64))) by (bit_vector);
-        assert(a < 0x1_0000_0000 ==> (((a & 262143u64) == 131071u64) <==> ((0xFFFF_FFFFu64 - a) % 262144u64 == 131072u64))) by (bit_vector);
+        assert(a < 0x1_0000_0000 ==> (((a & 262143u64) == 131071u64) <==> ((a ^ 0xFFFF_FFFFu64) % 262144u64 == 131072u64))) by (bit_vector);
     } else if h == 18 {
         assert(p2(18) == 262144) by (compute_only);
         assert(p2(19) == 524288) by (compute_only);
         assert(a < 0x1_0000_0000 ==> (((a & 524287u64) == 262144u64) <==> (a % 524288u64 == 262144u64))) by (bit_vector);
-        assert(a < 0x1_0000_0000 ==> (((a & 524287u64) == 262143u64) <==> ((0xFFFF_FFFFu64 - a) % 524288u64 == 262144u64))) by (bit_vector);
+        assert(a < 0x1_0000_0000 ==> (((a & 524287u64) == 262143u64) <==> ((a ^ 0xFFFF_FFFFu64) % 524288u64 == 262144u64))) by (bit_vector);
     } else if h == 19 {
         assert(p2(19) == 524288) by (compute_only);
         assert(p2(20) == 1048576) by (compute_only);
         assert(a < 0x1_0000_0000 ==> (((a & 1048575u64) == 524288u64) <==> (a % 1048576u64 == 524288u64))) by (bit_vector);
-        assert(a < 0x1_0000_0000 ==> (((a & 1048575u64) == 524287u64) <==> ((0xFFFF_FFFFu64 - a) % 1048576u64 == 524288u64))) by (bit_vector);
+        assert(a < 0x1_0000_0000 ==> (((a & 1048575u64) == 524287u64) <==> ((a ^ 0xFFFF_FFFFu64) % 1048576u64 == 524288u64))) by (bit_vector);
     } else if h == 20 {
         assert(p2(20) == 1048576) by (compute_only);
         assert(p2(21) == 2097152) by (compute_only);
         assert(a < 0x1_0000_0000 ==> (((a & 2097151u64) == 1048576u64) <==> (a % 2097152u64 == 1048576u64))) by (bit_vector);
-        assert(a < 0x1_0000_0000 ==> (((a & 2097151u64) == 1048575u64) <==> ((0xFFFF_FFFFu64 - a) % 2097152u64 == 1048576u64))) by (bit_vector);
+        assert(a < 0x1_0000_0000 ==> (((a & 2097151u64) == 1048575u64) <==> ((a ^ 0xFFFF_FFFFu64) % 2097152u64 == 1048576u64))) by (bit_vector);
     } else if h == 21 {
         assert(p2(21) == 2097152) by (compute_only);
         assert(p2(22) == 4194304) by (compute_only);
         assert(a < 0x1_0000_0000 ==> (((a & 4194303u64) == 2097152u64) <==> (a % 4194304u64 == 2097152u64))) by (bit_vector);
-        assert(a < 0x1_0000_0000 ==> (((a & 4194303u64) == 2097151u64) <==> ((0xFFFF_FFFFu64 - a) % 4194304u64 == 2097152u64))) by (bit_vector);
+        assert(a < 0x1_0000_0000 ==> (((a & 4194303u64) == 2097151u64) <==> ((a ^ 0xFFFF_FFFFu64) % 4194304u64 == 2097152u64))) by (bit_vector);
     } else if h == 22 {
         assert(p2(22) == 4194304) by (compute_only);
         assert(p2(23) == 8388608) by (compute_only);
         assert(a < 0x1_0000_0000 ==> (((a & 8388607u64) == 4194304u64) <==> (a % 8388608u64 == 4194304u64))) by (bit_vector);
-        assert(a < 0x1_0000_0000 ==> (((a & 8388607u64) == 4194303u64) <==> ((0xFFFF_FFFFu64 - a) % 8388608u64 == 4194304u64))) by (bit_vector);
+        assert(a < 0x1_0000_0000 ==> (((a & 8388607u64) == 4194303u64) <==> ((a ^ 0xFFFF_FFFFu64) % 8388608u64 == 4194304u64))) by (bit_vector);
     } else if h == 23 {
         assert(p2(23) == 8388608) by (compute_only);
         assert(p2(24) == 16777216) by (compute_only);
         assert(a < 0x1_0000_0000 ==> (((a & 16777215u64) == 8388608u64) <==> (a % 16777216u64 == 8388608u64))) by (bit_vector);
-        assert(a < 0x1_0000_0000 ==> (((a & 16777215u64) == 8388607u64) <==> ((0xFFFF_FFFFu64 - a) % 16777216u64 == 8388608u64))) by (bit_vector);
+        assert(a < 0x1_0000_0000 ==> (((a & 16777215u64) == 8388607u64) <==> ((a ^ 0xFFFF_FFFFu64) % 16777216u64 == 8388608u64))) by (bit_vector);
     } else if h == 24 {
         assert(p2(24) == 16777216) by (compute_only);
         assert(p2(25) == 33554432) by (compute_only);
         assert(a < 0x1_0000_0000 ==> (((a & 33554431u64) == 16777216u64) <==> (a % 33554432u64 == 16777216u64))) by (bit_vector);
-        assert(a < 0x1_0000_0000 ==> (((a & 33554431u64) == 16777215u64) <==> ((0xFFFF_FFFFu64 - a) % 33554432u64 == 16777216u64))) by (bit_vector);
+        assert(a < 0x1_0000_0000 ==> (((a & 33554431u64) == 16777215u64) <==> ((a ^ 0xFFFF_FFFFu64) % 33554432u64 == 16777216u64))) by (bit_vector);
     } else if h == 25 {
         assert(p2(25) == 33554432) by (compute_only);
         assert(p2(26) == 67108864) by (compute_only);
         assert(a < 0x1_0000_0000 ==> (((a & 67108863u64) == 33554432u64) <==> (a % 67108864u64 == 33554432u64))) by (bit_vector);
-        assert(a < 0x1_0000_0000 ==> (((a & 67108863u64) == 33554431u64) <==> ((0xFFFF_FFFFu64 - a) % 67108864u64 == 33554432u64))) by (bit_vector);
+        assert(a < 0x1_0000_0000 ==> (((a & 67108863u64) == 33554431u64) <==> ((a ^ 0xFFFF_FFFFu64) % 67108864u64 == 33554432u64))) by (bit_vector);
     } else if h == 26 {
         assert(p2(26) == 67108864) by (compute_only);
         assert(p2(27) == 134217728) by (compute_only);
         assert(a < 0x1_0000_0000 ==> (((a & 134217727u64) == 67108864u64) <==> (a % 134217728u64 == 67108864u64))) by (bit_vector);
-        assert(a < 0x1_0000_0000 ==> (((a & 134217727u64) == 67108863u64) <==> ((0xFFFF_FFFFu64 - a) % 134217728u64 == 67108864u64))) by (bit_vector);
+        assert(a < 0x1_0000_0000 ==> (((a & 134217727u64) == 67108863u64) <==> ((a ^ 0xFFFF_FFFFu64) % 134217728u64 == 67108864u64))) by (bit_vector);
     } else if h == 27 {
         assert(p2(27) == 134217728) by (compute_only);
         assert(p2(28) == 268435456) by (compute_only);
         assert(a < 0x1_0000_0000 ==> (((a & 268435455u64) == 134217728u64) <==> (a % 268435456u64 == 134217728u64))) by (bit_vector);
-        assert(a < 0x1_0000_0000 ==> (((a & 268435455u64) == 134217727u64) <==> ((0xFFFF_FFFFu64 - a) % 268435456u64 == 134217728u64))) by (bit_vector);
+        assert(a < 0x1_0000_0000 ==> (((a & 268435455u64) == 134217727u64) <==> ((a ^ 0xFFFF_FFFFu64) % 268435456u64 == 134217728u64))) by (bit_vector);
     } else if h == 28 {
         assert(p2(28) == 268435456) by (compute_only);
         assert(p2(29) == 536870912) by (compute_only);
         assert(a < 0x1_0000_0000 ==> (((a & 536870911u64) == 268435456u64) <==> (a % 536870912u64 == 268435456u64))) by (bit_vector);
-        assert(a < 0x1_0000_0000 ==> (((a & 536870911u64) == 268435455u64) <==> ((0xFFFF_FFFFu64 - a) % 536870912u64 == 268435456u64))) by (bit_vector);
+        assert(a < 0x1_0000_0000 ==> (((a & 536870911u64) == 268435455u64) <==> ((a ^ 0xFFFF_FFFFu64) % 536870912u64 == 268435456u64))) by (bit_vector);
     } else if h == 29 {
         assert(p2(29) == 536870912) by (compute_only);
         assert(p2(30) == 1073741824) by (compute_only);
         assert(a < 0x1_0000_0000 ==> (((a & 1073741823u64) == 536870912u64) <==> (a % 1073741824u64 == 536870912u64))) by (bit_vector);
-        assert(a < 0x1_0000_0000 ==> (((a & 1073741823u64) == 536870911u64) <==> ((0xFFFF_FFFFu64 - a) % 1073741824u64 == 536870912u64))) by (bit_vector);
+        assert(a < 0x1_0000_0000 ==> (((a & 1073741823u64) == 536870911u64) <==> ((a ^ 0xFFFF_FFFFu64) % 1073741824u64 == 536870912u64))) by (bit_vector);
     } else if h == 30 {
         assert(p2(30) == 1073741824) by (compute_only);
         assert(p2(31) == 2147483648) by (compute_only);
         assert(a < 0x1_0000_0000 ==> (((a & 2147483647u64) == 1073741824u64) <==> (a % 2147483648u64 == 1073741824u64))) by (bit_vector);
-        assert(a < 0x1_0000_0000 ==> (((a & 2147483647u64) == 1073741823u64) <==> ((0xFFFF_FFFFu64 - a) % 2147483648u64 == 1073741824u64))) by (bit_vector);
+        assert(a < 0x1_0000_0000 ==> (((a & 2147483647u64) == 1073741823u64) <==> ((a ^ 0xFFFF_FFFFu64) % 2147483648u64 == 1073741824u64))) by (bit_vector);
     } else if h == 31 {
         assert(p2(31) == 2147483648) by (compute_only);
         assert(p2(32) == 4294967296) by (compute_only);
         assert(a < 0x1_0000_0000 ==> (((a & 4294967295u64) == 2147483648u64) <==> (a % 4294967296u64 == 2147483648u64))) by (bit_vector);
-        assert(a < 0x1_0000_0000 ==> (((a & 4294967295u64) == 2147483647u64) <==> ((0xFFFF_FFFFu64 - a) % 4294967296u64 == 2147483648u64))) by (bit_vector);
+        assert(a < 0x1_0000_0000 ==> (((a & 4294967295u64) == 2147483647u64) <==> ((a ^ 0xFFFF_FFFFu64) % 4294967296u64 == 2147483648u64))) by (bit_vector);
     } else if h == 32 {
         assert(p2(32) == 4294967296) by (compute_only);
         assert(a < 0x1_0000_0000 ==> (((a & 4294967295u64) == 0u64) <==> (a == 0u64))) by (bit_vector);
         assert(a < 0x1_0000_0000 ==> (((a & 4294967295u64) == 4294967295u64) <==> (a == 0xFFFF_FFFFu64))) by (bit_vector);
+    }
+}
+// ---- hand-written part: the field arithmetic around the masks, for EVERY hint value -----------------
+/// u32clz / u32clo: exponent e = 32 - hint (in the field), p = 2^e, mask = 2^32 - p, bit = p / 2
+pub proof fn lemma_clz_all(a: Felt, hint: Felt)
+    requires is_u32(a)
+    ensures ({
+        let h = hint.val();
+        let e = fadd(32, fneg(h));
+        let p = p2(e);
+        let mask0 = fadd(0x1_0000_0000, fneg(p));
+        let bit = p / 2;
+        let m = fadd(mask0, bit);
+        &&& (h <= 32 ==> e == 32 - h && 1 <= p <= 0x1_0000_0000 && mask0 == 0x1_0000_0000 - p && bit == clz_bit(h)
+                && m == clz_mask(h) && 0 <= m < 0x1_0000_0000 && 0 <= bit < 0x1_0000_0000
+                && ((((a.val() as u64) & (m as u64)) as int == bit) <==> clz_is(a.val(), h))
+                && ((((a.val() as u64) & (m as u64)) as int == mask0) <==> clz_is(0xFFFF_FFFF - a.val(), h)))
+        &&& (h > 32 ==> !clz_is(a.val(), h) && !clz_is(0xFFFF_FFFF - a.val(), h))
+        &&& ((h > 32 && e <= 63) ==> 33 <= e && p < P() && bit < P() && mask0 < P() && 0x1_0000_0000 <= bit
+                && (m >= 0x1_0000_0000 || m == 0))
+    })
+{
+    broadcast use felt_model::felt_axioms;
+    let h = hint.val();
+    let e = fadd(32, fneg(h));
+    assert(0 <= h < P());
+    if h <= 32 {
+        assert(e == 32 - h);
+        lemma_p2_bits(e);
+        lemma_p2_split(e);
+        lemma_p2_consts();
+        let p = p2(e);
+        if e == 32 { assert(p == 0x1_0000_0000); } else { assert(p <= 0x8000_0000); }
+        lemma_clz_mask(a.val() as u64, h);
+        assert(fneg(p) == P() - p);
+        assert(fadd(0x1_0000_0000, fneg(p)) == 0x1_0000_0000 - p);
+        assert(clz_mask(h) == 0x1_0000_0000 - p + p / 2);
+        assert(fadd(0x1_0000_0000 - p, p / 2) == 0x1_0000_0000 - p + p / 2);
+    } else {
+        if e <= 63 {
+            // h >= P - 31
+            assert(e == 32 - h + P());
+            assert(e >= 33) by { assert(h <= P() - 1); }
+            lemma_p2_bits(e);
+            lemma_p2_split(e);
+            lemma_p2_consts();
+            let p = p2(e);
+            lemma_p2_add(33, e - 33);
+            lemma_p2_add(e - 33, 0);
+            assert(p2(33) == 0x2_0000_0000) by (compute_only);
+            assert(p >= 0x2_0000_0000) by (nonlinear_arith) requires p == p2(33) * p2(e - 33), p2(33) == 0x2_0000_0000, p2(e - 33) >= 1;
+            assert(p <= 0x8000_0000_0000_0000);
+            assert(fneg(p) == P() - p);
+            let mask0 = fadd(0x1_0000_0000, fneg(p));
+            assert(mask0 == 0x1_0000_0000 + P() - p);
+            let bit = p / 2;
+            assert(p == 2 * bit) by { lemma_p2_add(1, e - 1); assert(p2(1) == 2) by (compute_only); }
+            if e == 33 { assert(fadd(mask0, bit) == 0); } else {
+                lemma_p2_add(34, e - 34); lemma_p2_add(e - 34, 0);
+                assert(p2(34) == 0x4_0000_0000) by (compute_only);
+                assert(p >= 0x4_0000_0000) by (nonlinear_arith) requires p == p2(34) * p2(e - 34), p2(34) == 0x4_0000_0000, p2(e - 34) >= 1;
+                assert(fadd(mask0, bit) == 0x1_0000_0000 + P() - p + bit);
+            }
+        }
     }
 }
